@@ -200,7 +200,8 @@ func VerifC15Selection() {
 		expectErr := false
 		switch op {
 		case 0:
-			ps := [][]string{{}, {"p"}, {"q"}, {"*"}, {"p", "q"}}[vrtChoice("profiles", 5)]
+			// the wildcard alone, first, last; a profile nobody has; two profiles in both orders
+			ps := [][]string{{}, {"p"}, {"q"}, {"*"}, {"p", "q"}, {"q", "p"}, {"zz", "*"}, {"*", "zz"}, {"zz"}, {"q", "*", "zz"}}[vrtChoice("profiles", 10)]
 			apply = func() (*Project, error) { return p.WithProfiles(ps) }
 			r.withProfiles(ps)
 		case 1:
